@@ -442,6 +442,12 @@ class StmtMixin:
             if new_l == mod_locals and new_h == mod_heap and (locs_prev == locs_now):
                 # 3. back edges: invariant preserved, variant decreases
                 for q in back:
+                    if is_for and isinstance(q.env.get(sname), VKeys) and q.env[sname].pairs:
+                        # iterating d.items(): CPython raises RuntimeError if the key set changes during iteration
+                        dd = q.env[sname].d
+                        kk = z3.Int('it_k')
+                        same = z3.ForAll([kk], z3.Select(harr(q, '$dom'), dd, kk) == z3.Select(harr(p, '$dom'), dd, kk))
+                        self.oblige(q, lname + '/dict-not-resized-during-iteration', same, 'noraise')
                     self.loop_ghost(spec, spec.back_ghost, q, fc, ordn, is_for, lname + '/back')
                     self.check_invariants(spec, q, fc, lname + '/inv-preserved', ordn, is_for)
                     if variant0 is not None:
